@@ -494,6 +494,9 @@ pub struct Socket<'a> {
     /// The last sequence number sent.
     /// I.e. in an idle socket, local_seq_no+tx_buffer.len().
     remote_last_seq: TcpSeqNumber,
+    /// The highest sequence number sent so far (SND.MAX). A retransmission timeout rewinds
+    /// `remote_last_seq`; empty acknowledgments are still sent from here.
+    local_tx_max: Option<TcpSeqNumber>,
     /// The last acknowledgement number sent.
     /// I.e. in an idle socket, remote_seq_no+rx_buffer.len().
     remote_last_ack: Option<TcpSeqNumber>,
@@ -603,6 +606,7 @@ impl<'a> Socket<'a> {
             local_seq_no: TcpSeqNumber::default(),
             remote_seq_no: TcpSeqNumber::default(),
             remote_last_seq: TcpSeqNumber::default(),
+            local_tx_max: None,
             remote_last_ack: None,
             remote_last_win: 0,
             remote_last_win_unscaled: false,
@@ -926,6 +930,7 @@ impl<'a> Socket<'a> {
         self.local_seq_no = TcpSeqNumber::default();
         self.remote_seq_no = TcpSeqNumber::default();
         self.remote_last_seq = TcpSeqNumber::default();
+        self.local_tx_max = None;
         self.remote_last_ack = None;
         self.remote_last_win = 0;
         self.remote_last_win_unscaled = false;
@@ -1492,7 +1497,13 @@ impl<'a> Socket<'a> {
         // [...] an empty acknowledgment segment containing the current send-sequence number
         // and an acknowledgment indicating the next sequence number expected
         // to be received.
-        reply_repr.seq_number = self.remote_last_seq;
+        // After a retransmission timeout `remote_last_seq` has been rewound; a sequence
+        // number the remote end has already passed would make it discard this segment,
+        // acknowledgment included.
+        reply_repr.seq_number = match self.local_tx_max {
+            Some(tx_max) if tx_max > self.remote_last_seq => tx_max,
+            _ => self.remote_last_seq,
+        };
         reply_repr.ack_number = Some(self.remote_seq_no + self.rx_buffer.len());
         self.remote_last_ack = reply_repr.ack_number;
 
@@ -2847,6 +2858,10 @@ impl<'a> Socket<'a> {
         self.remote_last_seq = self
             .remote_last_seq
             .max(repr.seq_number + repr.segment_len());
+        self.local_tx_max = Some(match self.local_tx_max {
+            Some(tx_max) => tx_max.max(self.remote_last_seq),
+            None => self.remote_last_seq,
+        });
         self.remote_last_ack = repr.ack_number;
         self.remote_last_win = repr.window_len;
         self.remote_last_win_unscaled = repr.control == TcpControl::Syn;
